@@ -41,7 +41,28 @@ class TokRule:
         self.nstores = 0
 
     def inline_ok(self, I, ci, body):
-        return False
+        # nested helper fns / closures of the tokenizer itself (e.g. a `push(bytes, &mut insert, b)` helper) are looked into
+        return body.npath.startswith(self.fn.npath + '::') and not any(
+            b['term']['k'] == 'call' and F.norm_path((b['term']['func'] or {}).get('path') or '') == body.npath for b in body.blocks)
+
+    def index_name(self, I, w, depth, idx):
+        """source-level name of the variable a store is indexed by; inside an inlined helper the index is a copy of
+        `*r` with r a `&mut` to a variable of the tokenizer's own frame"""
+        if depth == 0:
+            return self.fn.body['locals'][idx]['name']
+        cur = getattr(I, '_fn', None)
+        if cur is None:
+            return None
+        nm = cur.body['locals'][idx]['name'] if idx < len(cur.body['locals']) else None
+        for b in cur.blocks:
+            for st in b['stmts']:
+                if st['k'] == 'assign' and st['place']['l'] == idx and not st['place']['p'] and st['rv'].get('k') == 'use':
+                    op = st['rv']['op']
+                    if op.get('k') in ('copy', 'move') and any(e['k'] == 'deref' for e in op['place']['p']):
+                        v = w.store.get((depth, op['place']['l']))
+                        if v is not None and v[0] == 'ref' and v[1][0] == 0:
+                            return self.fn.body['locals'][v[1][1]]['name']
+        return nm
 
     def state_of(self, I, w, depth):
         items = []
@@ -85,7 +106,7 @@ class TokRule:
             self.problems.append("a value other than the separator or the current input byte is stored at %s" % stmt['span'])
         # T3: index operand
         idx = [e for e in place['p'] if e['k'] == 'index'][0]['l']
-        nm = self.fn.body['locals'][idx]['name']
+        nm = self.index_name(I, w, depth, idx)
         return w.with_st((S, cls, outs + ((item, nm),)))
 
     def on_call(self, I, w, ci, args):
@@ -124,6 +145,53 @@ def extract(lib):
         if rv[0] == 'adt' and cls == 'END':
             rule.finals.setdefault(S, set()).add(rv[3][ei])
     return fn, I, rule, classes
+
+
+def slack_lemma(lib):
+    """The in-place rewrite never overtakes its reader: on the transducer extracted from `Tokens::new` (state x byte class
+    -> state', stores), let slack(S) be the least value of (bytes read so far) - (bytes stored so far) over all paths
+    from the start to S (a shortest-path problem over the finite transducer, edge weight 1 - #stores; a negative cycle
+    would make it unbounded).  If every transition out of S stores at most slack(S) + 1 bytes, then every store index is
+    at most the index of the byte being read, hence inside the line, the output cursor never exceeds the line length, and
+    `cursor + 1` cannot overflow.  -> (holds, detail, function path, all index variables)"""
+    fn, I, rule, classes = extract(lib)
+    if not rule.trans or len(rule.starts) != 1 or rule.problems:
+        return False, "tokenizer loop not recognised (%s)" % "; ".join(sorted(set(rule.problems))[:2]), fn.npath
+    start = next(iter(rule.starts))
+    INF = 10 ** 9
+    slack = {start: 0}
+    states = {start} | {S for (S, c) in rule.trans} | {S2 for outs in rule.trans.values() for S2, o in outs}
+    idxs = set()
+    for _ in range(len(states) + 2):
+        changed = False
+        for (S, c), outs in rule.trans.items():
+            if S not in slack:
+                continue
+            for S2, out in outs:
+                idxs |= {o[1] for o in out}
+                v = slack[S] + (0 if c == 'END' else 1) - len(out)
+                if v < slack.get(S2, INF):
+                    slack[S2] = v
+                    changed = True
+        if not changed:
+            break
+    else:
+        return False, "the rewrite can fall behind without bound (a cycle stores more bytes than it reads)", fn.npath
+    for (S, c), outs in rule.trans.items():
+        if S not in slack:
+            continue
+        for S2, out in outs:
+            room = slack[S] + (0 if c == 'END' else 1)
+            if len(out) > room:
+                return False, "in state %s on %s the loop stores %d bytes with only %d consumed and not yet overwritten" % (
+                    dict(S), fsm.cls_name(c) if c != 'END' else 'end of line', len(out), room), fn.npath
+    if len(idxs) > 1:
+        return False, "stores go through different index variables %s" % sorted(idxs, key=str), fn.npath
+    per_mode = {}
+    for k, v in slack.items():
+        m = dict(k).get('mode', '?')
+        per_mode[m] = min(v, per_mode.get(m, INF))
+    return True, "least slack per mode: %s" % sorted(per_mode.items(), key=str), fn.npath
 
 
 def simplify(outs):
